@@ -127,7 +127,9 @@ func Channels(w *ksim.World, i int, keep func(port string) bool) []Chan {
 }
 
 // IsControllerPort reports whether port is an interchain-accounts controller port.
-func IsControllerPort(port string) bool { return strings.HasPrefix(port, icatypes.ControllerPortPrefix) }
+func IsControllerPort(port string) bool {
+	return strings.HasPrefix(port, icatypes.ControllerPortPrefix)
+}
 
 // IsHostPort reports whether port is the interchain-accounts host port.
 func IsHostPort(port string) bool { return port == HostPort }
@@ -305,4 +307,3 @@ func AckFromEvents(r ksim.Result) []byte {
 	}
 	return nil
 }
-
